@@ -45,6 +45,9 @@ def cases(tier):
             add('put', [(r, c, b), (1, 2, b)], ind=[0, n - 1], mode='raise')
             add('put', [(r, c, b), (1, 2, b)], ind=[-1, n + 1], mode='wrap')
             add('put', [(r, c, b), (1, 2, b)], ind=[-n - 3, n + 5], mode='clip')
+            for mode in ('raise', 'wrap', 'clip'):
+                add('put', [(r, c, b), (1, 2, b)], ind=[-1, -n], mode=mode)
+                add('put', [(r, c, b), (1, 2, b)], ind=[-2 if n > 1 else -1, 0], mode=mode)
         if r == c:
             for k in (0, 1, 2, 3):
                 if k < 3 or r < 3:
